@@ -235,3 +235,686 @@ Proof.
   - rewrite logical_of_mem_eq, B. unfold idx. apply pos_unpos; assumption.
   - intros isz. apply Perm.strides_address; [exact P1|lia|exact Hir].
 Qed.
+
+
+
+(* ---- seqopt over map ---- *)
+Lemma seqopt_map_spec {A B} (f : A -> option B) (dA : A) (dB : B) : forall l r, seqopt (map f l) = Some r ->
+  length r = length l /\ forall i, (i < length l)%nat -> f (nth i l dA) = Some (nth i r dB).
+Proof.
+  induction l as [|a l IH]; intros r H; cbn in H.
+  - inversion H; subst. split; [reflexivity|]. intros i Hi. cbn in Hi. lia.
+  - destruct (f a) as [b|] eqn:Ea; [|discriminate]. destruct (seqopt (map f l)) as [r'|] eqn:E; [|discriminate].
+    inversion H; subst. destruct (IH r' eq_refl) as [L N]. split; [cbn; lia|]. intros [|i] Hi; [exact Ea|]. cbn in Hi. cbn [nth]. apply N. lia.
+Qed.
+Lemma seqopt_map_intro {A B} (f : A -> option B) (dA : A) (dB : B) : forall l r, length r = length l ->
+  (forall i, (i < length l)%nat -> f (nth i l dA) = Some (nth i r dB)) -> seqopt (map f l) = Some r.
+Proof.
+  induction l as [|a l IH]; intros [|b r] L N; cbn in L; try discriminate; [reflexivity|].
+  cbn [map seqopt]. pose proof (N O ltac:(cbn; lia)) as N0. cbn [nth] in N0. rewrite N0. rewrite (IH r ltac:(lia)); [reflexivity|].
+  intros i Hi. apply (N (S i)). cbn. lia.
+Qed.
+
+Lemma len_map {A B} (f : A -> B) l : len (map f l) = len l.
+Proof. unfold len. rewrite map_length. reflexivity. Qed.
+(* ---- a concatenation of equally long parts ---- *)
+Lemma len_concat_uniform (l : list (list cell)) k : (forall x, In x l -> len x = k) -> len (concat l) = k * len l.
+Proof.
+  induction l as [|x l IH]; intros H; [cbn; change (len (@nil (list cell))) with 0; lia|].
+  cbn [concat]. rewrite len_app, len_cons, IH by (intros y Hy; apply H; right; exact Hy). rewrite (H x) by (left; reflexivity). lia.
+Qed.
+Lemma sits_concat_uniform : forall (l : list (list cell)) m o k, sits (concat l) m o -> (forall x, In x l -> len x = k) ->
+  forall p, (p < length l)%nat -> sits (nth p l []) m (o + k * Z.of_nat p).
+Proof.
+  induction l as [|x l IH]; intros m o k Hs Hk p Hp; [cbn in Hp; lia|].
+  cbn [concat] in Hs. apply sits_app in Hs. destruct Hs as [S1 S2]. rewrite (Hk x) in S2 by (left; reflexivity).
+  destruct p as [|p].
+  - cbn [nth]. replace (o + k * Z.of_nat 0) with o by lia. exact S1.
+  - cbn [nth]. replace (o + k * Z.of_nat (S p)) with ((o + k) + k * Z.of_nat p) by lia. apply IH; [exact S2| |cbn in Hp; lia].
+    intros y Hy. apply Hk. right. exact Hy.
+Qed.
+
+(* ================= sizes of images of static types ================= *)
+Definition csize_list : list ty -> option Z :=
+  fix go (fs : list ty) : option Z :=
+    match fs with
+    | [] => Some 0
+    | f :: tl => match csize f, go tl with Some a, Some b => Some (slot a + b) | _, _ => None end
+    end.
+Lemma csize_struct_eq fs : csize (TStruct fs) = csize_list fs.
+Proof. reflexivity. Qed.
+Lemma csize_list_static : forall fs s, csize_list fs = Some s -> forallb is_static fs = true.
+Proof.
+  induction fs as [|f fs IH]; intros s H; [reflexivity|]. cbn in H. cbn [forallb]. unfold is_static at 1.
+  destruct (csize f) as [a|]; [|discriminate]. destruct (csize_list fs) as [b|] eqn:E; [|discriminate]. cbn. apply (IH b eq_refl).
+Qed.
+Lemma enc_struct_static fs es : length es = length fs -> forallb is_static fs = true -> enc_struct fs es = concat (map padslot es).
+Proof.
+  intros L H. unfold enc_struct. rewrite (combine_filter_static fs es L H).
+  rewrite <- (map_snd_combine fs es L) at 2. rewrite map_map. reflexivity.
+Qed.
+
+Definition SZ (t : ty) : Prop := forall v img s, enc t v = Some img -> csize t = Some s -> len img = s.
+
+Lemma SZ_list : forall fs, Forall SZ fs -> forall vs es s, enc_list fs vs = Some es -> csize_list fs = Some s ->
+  len (concat (map padslot es)) = s.
+Proof.
+  induction fs as [|f fs IH]; intros HF vs es s He Hc.
+  - destruct vs; cbn in He; [|discriminate]. inversion He; subst. cbn in Hc. inversion Hc. reflexivity.
+  - destruct vs as [|v vs]; cbn in He; [discriminate|].
+    destruct (enc f v) as [e|] eqn:Ee; [|discriminate]. destruct (enc_list fs vs) as [r|] eqn:Er; [|discriminate].
+    inversion He; subst es. clear He. inversion HF as [|? ? Hf HFt]; subst.
+    cbn in Hc. destruct (csize f) as [a|] eqn:Ca; [|discriminate]. destruct (csize_list fs) as [b|] eqn:Cb; [|discriminate].
+    inversion Hc; subst s. rewrite len_concat_padslot_cons. rewrite (Hf v e a Ee Ca). rewrite (IH HFt vs r b Er eq_refl). reflexivity.
+Qed.
+
+Lemma all_some_shape_ok : forall shape sh0 sh, all_some shape = Some sh0 -> shape_ok shape sh = true -> sh = sh0 /\ ndyn shape = 0.
+Proof.
+  induction shape as [|[d|] tl IH]; intros sh0 [|x r] Ha Hs; cbn in Ha, Hs; try discriminate.
+  - inversion Ha. split; reflexivity.
+  - destruct (all_some tl) as [r0|] eqn:E; [|discriminate]. inversion Ha; subst sh0.
+    apply andb_prop in Hs. destruct Hs as [Hs Hr]. apply andb_prop in Hs. destruct Hs as [Hd _]. apply Z.eqb_eq in Hd. subst x.
+    destruct (IH r0 r eq_refl Hr) as [A B]. subst. split; [reflexivity|exact B].
+Qed.
+
+Lemma mem_positions_length sh : 0 <= prod sh -> len (mem_positions sh) = prod sh.
+Proof. intros H. unfold mem_positions, len. rewrite map_length, seq_length. lia. Qed.
+Lemma In_mem_positions sh p : In p (mem_positions sh) -> 0 <= p < prod sh.
+Proof.
+  unfold mem_positions. intros H. apply in_map_iff in H. destruct H as [i [E Hi]]. apply in_seq in Hi. lia.
+Qed.
+
+(* all item images of a static item type have the static size, hence so do the images in memory order *)
+Lemma es_mem_uniform item shape order sh items es isz :
+  SZ item -> csize item = Some isz -> shape_ok shape sh = true -> perm_ok order (length shape) = true ->
+  len items = prod sh -> seqopt (map (enc item) items) = Some es ->
+  forall x, In x (map (fun p => nth (Z.to_nat (logical_of_mem sh order p)) es []) (mem_positions sh)) -> len x = isz.
+Proof.
+  intros Hsz Hc Hs Hp Hn He x Hx. apply in_map_iff in Hx. destruct Hx as [p [E Hpin]]. apply In_mem_positions in Hpin.
+  destruct (seqopt_map_spec (enc item) VNull [] items es He) as [L N].
+  pose proof (lom_range shape sh order p Hs Hp Hpin) as Hr.
+  assert (Hi : (Z.to_nat (logical_of_mem sh order p) < length items)%nat) by (unfold len in Hn; lia).
+  subst x. eapply Hsz; [apply N; exact Hi|exact Hc].
+Qed.
+
+Lemma SZ_all : forall t, SZ t.
+Proof.
+  apply ty_ind'.
+  - intros k v img s H Hc. destruct v as [bs| | | | | |]; try discriminate. cbn in H, Hc.
+    destruct (len bs =? ssize k) eqn:E; [|discriminate]. apply Z.eqb_eq in E. inversion H; subst. inversion Hc; subst. rewrite len_bytes. exact E.
+  - intros v img s H Hc. discriminate.
+  - intros fs HF v img s H Hc. destruct v as [| |vs| | | |]; try discriminate.
+    rewrite enc_struct_eq in H. destruct (enc_list fs vs) as [es|] eqn:Ee; [|discriminate]. inversion H; subst img. clear H.
+    rewrite csize_struct_eq in Hc. destruct (enc_list_length _ _ _ Ee) as [L1 _].
+    rewrite (enc_struct_static fs es L1 (csize_list_static fs s Hc)). eapply SZ_list; eassumption.
+  - intros item shape order Hsz v img s H Hc. destruct v as [| | |sh items| | |]; try discriminate.
+    cbn [enc] in H. destruct (shape_ok shape sh && perm_ok order (length shape) && (len items =? prod sh) && words_fit item shape order sh) eqn:G; [|discriminate].
+  apply andb_prop in G. destruct G as [G Gw].
+    apply andb_prop in G. destruct G as [G Gn]. apply andb_prop in G. destruct G as [Gs Gp]. apply Z.eqb_eq in Gn.
+    destruct (seqopt (map (enc item) items)) as [es|] eqn:Ee; [|discriminate]. inversion H; subst img. clear H.
+    cbn [csize] in Hc. destruct (csize item) as [isz|] eqn:Ci; [|discriminate]. destruct (all_some shape) as [sh0|] eqn:Ea; [|discriminate].
+    inversion Hc; subst s. clear Hc. destruct (all_some_shape_ok _ _ _ Ea Gs) as [Esh Hnd]. subst sh0.
+    unfold enc_array. unfold is_static. rewrite Ci. unfold arr_header. rewrite Hnd. cbn [andb Z.eqb Z.ltb Z.compare Z.mul Z.add].
+    set (es_mem := map (fun p => nth (Z.to_nat (logical_of_mem sh order p)) es []) (mem_positions sh)).
+    pose proof (es_mem_uniform item shape order sh items es isz Hsz Ci Gs Gp Gn Ee) as Hu. fold es_mem in Hu.
+    pose proof (prod_nonneg sh (shape_ok_nonneg _ _ Gs)) as Hpn.
+    assert (Hlen : len (concat es_mem) = isz * prod sh).
+    { rewrite (len_concat_uniform es_mem isz Hu). unfold es_mem. rewrite len_map, mem_positions_length by exact Hpn. reflexivity. }
+    assert (Hisz : 0 <= isz * prod sh) by (rewrite <- Hlen; apply len_nonneg).
+    pose proof (slot_spec (isz * prod sh)) as [[A B] _].
+    rewrite Hlen. cbn [app]. unfold padto, pad. rewrite len_app, Hlen, len_repeat by lia. lia.
+  - intros t _ v img s H _. destruct v; discriminate.
+  - intros ms _ v img s H _. destruct v; discriminate.
+Qed.
+
+(* ================= arrays of static items ================= *)
+Definition fits (x : Z) : Prop := - 2^63 <= x < 2^63.
+Lemma forallb_fits l : forallb fits64b l = true -> Forall fits l.
+Proof.
+  intros H. apply Forall_forall. intros x Hx. rewrite forallb_forall in H. specialize (H x Hx). unfold fits64b in H.
+  apply andb_prop in H. destruct H as [A B]. apply Z.leb_le in A. apply Z.ltb_lt in B. split; assumption.
+Qed.
+
+Lemma guard_true b : b = true -> guard b = Some tt.
+Proof. intros ->. reflexivity. Qed.
+Lemma dyn_dims_nil shape sh : shape_ok shape sh = true -> ndyn shape = 0 -> dyn_dims shape sh = [].
+Proof. intros H Z0. pose proof (dyn_dims_length _ _ H) as L. rewrite Z0 in L. destruct (dyn_dims shape sh); [reflexivity|]. rewrite len_cons in L. pose proof (len_nonneg l). lia. Qed.
+Lemma ndyn_nonneg shape : 0 <= ndyn shape.
+Proof. induction shape as [|[d|] tl IH]; cbn [ndyn]; lia. Qed.
+Lemma list_eqbZ_refl l : list_eqbZ l l = true.
+Proof. induction l as [|x l IH]; [reflexivity|]. cbn. rewrite Z.eqb_refl, IH. reflexivity. Qed.
+Lemma rd_words_0 m o : rd_words m o 0 = [].
+Proof. reflexivity. Qed.
+
+Lemma map_nth_in {A B} (f : A -> B) : forall l k dB dA, (k < length l)%nat -> nth k (map f l) dB = f (nth k l dA).
+Proof. induction l as [|a l IH]; intros [|k] dB dA H; cbn in *; try lia; [reflexivity|]. apply IH. lia. Qed.
+Lemma nth_mem_positions sh k : (k < Z.to_nat (prod sh))%nat -> nth k (mem_positions sh) 0 = Z.of_nat k.
+Proof. intros H. unfold mem_positions. rewrite (map_nth_in _ _ _ 0 O%nat) by (rewrite seq_length; exact H). rewrite seq_nth by exact H. reflexivity. Qed.
+
+Lemma items_static_dec item shape order isz sh items es m base :
+  RT item -> csize item = Some isz -> shape_ok shape sh = true -> perm_ok order (length shape) = true ->
+  len items = prod sh -> seqopt (map (enc item) items) = Some es ->
+  sits (concat (map (fun p => nth (Z.to_nat (logical_of_mem sh order p)) es []) (mem_positions sh))) m base ->
+  isz * prod sh < 2^62 ->
+  forall c, (c < Z.to_nat (prod sh))%nat ->
+  dec item m (base + dot (unpos sh (Z.of_nat c)) (get_strides sh order isz)) = Some (nth c items VNull, isz).
+Proof.
+  intros HR Ci Gs Gp Gn Ee SB Hb c Hc.
+  pose proof (es_mem_uniform item shape order sh items es isz (SZ_all item) Ci Gs Gp Gn Ee) as Hu.
+  set (es_mem := map (fun p => nth (Z.to_nat (logical_of_mem sh order p)) es []) (mem_positions sh)) in *.
+  destruct (lom_of_idx shape sh order (Z.of_nat c) Gs Gp ltac:(lia)) as [Hmp [Hlom Hdot]]. cbv zeta in Hmp, Hlom, Hdot.
+  set (mp := Perm.mem_pos sh order (unpos sh (Z.of_nat c))) in *.
+  rewrite Hdot.
+  assert (Hlm : length es_mem = Z.to_nat (prod sh)) by (unfold es_mem, mem_positions; rewrite !map_length, seq_length; reflexivity).
+  pose proof (sits_concat_uniform es_mem m base isz SB Hu (Z.to_nat mp) ltac:(lia)) as Sx.
+  rewrite Z2Nat.id in Sx by lia.
+  assert (Ex : nth (Z.to_nat mp) es_mem [] = nth c es []).
+  { unfold es_mem. rewrite (map_nth_in _ _ _ [] 0) by (unfold mem_positions; rewrite map_length, seq_length; lia).
+    rewrite nth_mem_positions by lia. rewrite Z2Nat.id by lia. rewrite Hlom. rewrite Nat2Z.id. reflexivity. }
+  rewrite Ex in Sx.
+  destruct (seqopt_map_spec (enc item) VNull [] items es Ee) as [L N].
+  assert (Hci : (c < length items)%nat) by (unfold len in Gn; lia).
+  pose proof (N c Hci) as Hen. pose proof (SZ_all item _ _ _ Hen Ci) as Hle.
+  rewrite (HR _ _ m _ Hen Sx); [rewrite Hle; reflexivity|]. rewrite Hle.
+  assert (0 <= isz) by (rewrite <- Hle; apply len_nonneg). nia.
+Qed.
+
+Lemma items_static_seqopt item shape order isz sh items es m base :
+  RT item -> csize item = Some isz -> shape_ok shape sh = true -> perm_ok order (length shape) = true ->
+  len items = prod sh -> seqopt (map (enc item) items) = Some es ->
+  sits (concat (map (fun p => nth (Z.to_nat (logical_of_mem sh order p)) es []) (mem_positions sh))) m base ->
+  isz * prod sh < 2^62 ->
+  seqopt (map (fun idx : list Z => match dec item m (base + dot idx (get_strides sh order isz)) with Some vs => Some (fst vs) | None => None end)
+              (map (fun c : nat => unpos sh (Z.of_nat c)) (seq 0 (Z.to_nat (prod sh))))) = Some items.
+Proof.
+  intros HR Ci Gs Gp Gn Ee SB Hb. rewrite map_map.
+  apply (seqopt_map_intro _ O VNull); [rewrite seq_length; unfold len in Gn; lia|].
+  intros i Hi. rewrite seq_length in Hi. rewrite seq_nth by exact Hi. cbn [Nat.add].
+  rewrite (items_static_dec item shape order isz sh items es m base HR Ci Gs Gp Gn Ee SB Hb i Hi). reflexivity.
+Qed.
+
+Lemma RT_array_static item shape order isz : RT item -> csize item = Some isz ->
+  forall sh items img m off,
+  enc (TArray item shape order) (VArr sh items) = Some img -> sits img m off -> len img < 2^62 ->
+  dec (TArray item shape order) m off = Some (VArr sh items, len img).
+Proof.
+  intros HR Ci sh items img m off H Hs Hl.
+  cbn [enc] in H. destruct (shape_ok shape sh && perm_ok order (length shape) && (len items =? prod sh) && words_fit item shape order sh) eqn:G; [|discriminate].
+  apply andb_prop in G. destruct G as [G Gw].
+  apply andb_prop in G. destruct G as [G Gn]. apply andb_prop in G. destruct G as [Gs Gp]. apply Z.eqb_eq in Gn.
+  destruct (seqopt (map (enc item) items)) as [es|] eqn:Ee; [|discriminate]. inversion H; subst img. clear H.
+  unfold words_fit in Gw. rewrite Ci in Gw. apply andb_prop in Gw. destruct Gw as [Fd Fs]. apply forallb_fits in Fd. apply forallb_fits in Fs.
+  pose proof (es_mem_uniform item shape order sh items es isz (SZ_all item) Ci Gs Gp Gn Ee) as Hu.
+  assert (Hst : is_static item = true) by (unfold is_static; rewrite Ci; reflexivity).
+  unfold enc_array in *. rewrite Hst, Ci in *.
+  set (es_mem := map (fun p => nth (Z.to_nat (logical_of_mem sh order p)) es []) (mem_positions sh)) in *.
+  pose proof (prod_nonneg sh (shape_ok_nonneg _ _ Gs)) as Hpn.
+  assert (Hlen : len (concat es_mem) = isz * prod sh).
+  { rewrite (len_concat_uniform es_mem isz Hu). unfold es_mem. rewrite len_map, mem_positions_length by exact Hpn. reflexivity. }
+  rewrite Hlen in *.
+  set (hdr := arr_header true shape) in *. set (total := slot (hdr + isz * prod sh)) in *.
+  pose proof (ndyn_nonneg shape) as Hnd0. pose proof (len_nonneg shape) as Hls0.
+  assert (Hisz : 0 <= isz * prod sh) by (rewrite <- Hlen; apply len_nonneg).
+  assert (Hhdr0 : 0 <= hdr).
+  { unfold hdr, arr_header. destruct (true && (ndyn shape =? 0)); destruct ((0 <? ndyn shape) && (1 <? len shape)); lia. }
+  pose proof (slot_spec (hdr + isz * prod sh)) as [[TA TB] TM]. fold total in TA, TB, TM.
+  pose proof (dyn_dims_length _ _ Gs) as Ldd.
+  assert (Lst : len (get_strides sh order isz) = len shape).
+  { unfold len. rewrite get_strides_length. apply andb_prop in Gp. destruct Gp as [Gp _]. apply Nat.eqb_eq in Gp. lia. }
+  apply sits_app in Hs. destruct Hs as [SH SB].
+  assert (Hbody : forall base, sits (padto (concat es_mem) (total - hdr)) m base -> sits (concat es_mem) m base).
+  { intros base Hb. unfold padto in Hb. apply sits_app in Hb. tauto. }
+  assert (Hlimg : len (padto (concat es_mem) (total - hdr)) = total - hdr).
+  { unfold padto, pad. rewrite len_app, Hlen, len_repeat by lia. lia. }
+  rewrite len_app, Hlimg in Hl |- *.
+  assert (Htl : total - hdr + hdr = total) by lia.
+  assert (Hib : isz * prod sh < 2^62) by (match type of Hl with len ?h + _ < _ => pose proof (len_nonneg h) end; lia).
+  cbn [dec]. rewrite Hst, Ci. fold hdr. cbn [andb].
+  destruct (ndyn shape =? 0) eqn:End.
+  - apply Z.eqb_eq in End. assert (Hh : hdr = 0) by (unfold hdr, arr_header; rewrite End; reflexivity).
+    change (len (@nil cell)) with 0 in *.
+    rewrite guard_true by (rewrite Gp; cbn [andb]; unfold in_rangeb; destruct SH as [? [? _]]; unfold len in *; lia).
+    rewrite End, rd_words_0. rewrite <- (dyn_dims_nil shape sh Gs End), (fill_dyn_dims _ _ Gs), Gs. cbn [guard].
+    change (0 <? 0) with false. cbn [andb negb orb guard]. fold total.
+    rewrite guard_true by (apply (sits_in_range _ _ _) in SB; rewrite Hlimg in SB; replace (off + 0) with off in SB by lia; replace total with (total - hdr) by lia; exact SB).
+    rewrite (items_static_seqopt item shape order isz sh items es m (off + hdr) HR Ci Gs Gp Gn Ee); [f_equal; f_equal; lia| |exact Hib].
+    apply Hbody. replace (off + hdr) with (off + 0) by lia. exact SB.
+  - apply Z.eqb_neq in End. assert (Hndp : 0 < ndyn shape) by lia.
+    change (concat (map (fun d : Z => bytes (enc64 d)) (dyn_dims shape sh))) with (words (dyn_dims shape sh)) in *.
+    set (strs := if (0 <? ndyn shape) && (1 <? len shape) then get_strides sh order isz else []) in *.
+    change (concat (map (fun s : Z => bytes (enc64 s)) strs)) with (words strs) in *.
+    assert (L8 : len (bytes (enc64 total)) = 8) by (rewrite len_bytes; unfold len; rewrite enc64_length; reflexivity).
+    assert (LH : len (bytes (enc64 total) ++ words (dyn_dims shape sh) ++ words strs) = hdr).
+    { rewrite !len_app, L8, !len_words, Ldd. unfold hdr, arr_header, strs. replace (ndyn shape =? 0) with false by (symmetry; apply Z.eqb_neq; lia).
+      cbn [andb]. destruct ((0 <? ndyn shape) && (1 <? len shape)); [rewrite Lst|change (len (@nil Z)) with 0]; lia. }
+    rewrite LH in *.
+    pose proof SH as SH0. apply sits_app in SH. destruct SH as [S0 SH]. rewrite L8 in SH. apply sits_app in SH. destruct SH as [S1 S2].
+    rewrite len_words, Ldd in S2.
+    rewrite guard_true by (rewrite Gp; cbn [andb]; apply (sits_in_range _ _ _) in SH0; rewrite LH in SH0; exact SH0).
+    assert (Hrw : rd_words m (off + 8) (ndyn shape) = dyn_dims shape sh) by (rewrite <- Ldd; apply rd_words_spec; assumption).
+    rewrite Hrw.
+    rewrite (fill_dyn_dims _ _ Gs), Gs. cbn [guard]. fold total.
+    assert (Hg2 : negb ((0 <? ndyn shape) && (1 <? len shape)) || list_eqbZ (rd_words m (off + 8 + 8 * ndyn shape) (len shape)) (get_strides sh order isz) = true).
+    { unfold strs in S2. destruct ((0 <? ndyn shape) && (1 <? len shape)); [|reflexivity]. cbn [negb orb].
+      rewrite <- Lst. rewrite (rd_words_spec m _ _ S2 Fs). apply list_eqbZ_refl. }
+    rewrite Hg2. cbn [guard].
+    rewrite (sits_rd64 total m off ltac:(lia) S0). rewrite Z.eqb_refl. cbn [orb andb].
+    rewrite guard_true by (unfold in_rangeb; destruct SB as [? [SBr _]]; destruct S0 as [? _]; rewrite Hlimg in SBr; unfold len in *; lia).
+    rewrite (items_static_seqopt item shape order isz sh items es m (off + hdr) HR Ci Gs Gp Gn Ee); [f_equal; f_equal; lia| |exact Hib].
+    apply Hbody. exact SB.
+Qed.
+
+
+
+(* ================= structs with dynamic fields ================= *)
+Definition dec_dyn_list (m : mem) (off stat_len : Z) : list ty -> Z -> Z -> Z -> option (list val * Z) :=
+  fix go (fs : list ty) (so : Z) (k : Z) (dnext : Z) : option (list val * Z) :=
+    match fs with
+    | [] => Some ([], dnext)
+    | f :: tl =>
+        if is_static f then
+          match dec f m (off + so) with
+          | Some vs => match go tl (so + slot (snd vs)) k dnext with Some r => Some (fst vs :: fst r, snd r) | None => None end
+          | None => None
+          end
+        else
+          let o := if k =? 0 then dnext else rd64 m (off + 8 + stat_len + 8 * (k - 1)) in
+          match guard ((dnext <=? o) && (o mod 8 =? 0)) with
+          | Some _ =>
+            match dec f m (off + o) with
+            | Some vs => match go tl so (k + 1) (o + slot (snd vs)) with Some r => Some (fst vs :: fst r, snd r) | None => None end
+            | None => None
+            end
+          | None => None
+          end
+    end.
+
+Definition stat_len_of (fs : list ty) : Z := sumz (map (fun f => match csize f with Some s => slot s | None => 0 end) (filter is_static fs)).
+
+Lemma dec_struct_dyn_eq fs m off : len fs - len (filter is_static fs) =? 0 = false ->
+  dec (TStruct fs) m off =
+  match guard (in_rangeb m off 8) with
+  | Some _ =>
+    let total := rd64 m off in
+    match guard ((8 <=? total) && in_rangeb m off total) with
+    | Some _ =>
+      let hdr := 8 + stat_len_of fs + 8 * (len fs - len (filter is_static fs) - 1) in
+      match dec_dyn_list m off (stat_len_of fs) fs 8 0 hdr with
+      | Some r => match guard ((snd r <=? total) && (total mod 8 =? 0)) with Some _ => Some (VStruct (fst r), total) | None => None end
+      | None => None
+      end
+    | None => None
+    end
+  | None => None
+  end.
+Proof. intros H. cbn [dec]. rewrite H. reflexivity. Qed.
+
+Definition spairs (fs : list ty) (es : list (list cell)) := filter (fun p : ty * list cell => is_static (fst p)) (combine fs es).
+Definition dpairs (fs : list ty) (es : list (list cell)) := filter (fun p : ty * list cell => negb (is_static (fst p))) (combine fs es).
+Definition pimg (ps : list (ty * list cell)) : list cell := concat (map (fun p => padslot (snd p)) ps).
+Definition psz (ps : list (ty * list cell)) : list Z := map (fun p => slot (len (snd p))) ps.
+
+Lemma enc_struct_dyn_eq fs es p ps : dpairs fs es = p :: ps ->
+  enc_struct fs es =
+  let hdr := 8 + len (pimg (spairs fs es)) + 8 * (len (dpairs fs es) - 1) in
+  bytes (enc64 (hdr + sumz (psz (dpairs fs es)))) ++ pimg (spairs fs es) ++ words (tl (offsets_from hdr (psz (dpairs fs es)))) ++ pimg (dpairs fs es).
+Proof. intros H. unfold enc_struct. fold (spairs fs es). fold (dpairs fs es). rewrite H. reflexivity. Qed.
+
+Lemma spairs_cons_static f e fs es : is_static f = true -> spairs (f :: fs) (e :: es) = (f, e) :: spairs fs es.
+Proof. intros H. unfold spairs. cbn [combine filter fst]. rewrite H. reflexivity. Qed.
+Lemma spairs_cons_dyn f e fs es : is_static f = false -> spairs (f :: fs) (e :: es) = spairs fs es.
+Proof. intros H. unfold spairs. cbn [combine filter fst]. rewrite H. reflexivity. Qed.
+Lemma dpairs_cons_static f e fs es : is_static f = true -> dpairs (f :: fs) (e :: es) = dpairs fs es.
+Proof. intros H. unfold dpairs. cbn [combine filter fst]. rewrite H. reflexivity. Qed.
+Lemma dpairs_cons_dyn f e fs es : is_static f = false -> dpairs (f :: fs) (e :: es) = (f, e) :: dpairs fs es.
+Proof. intros H. unfold dpairs. cbn [combine filter fst]. rewrite H. reflexivity. Qed.
+Lemma pimg_cons f e ps : pimg ((f, e) :: ps) = padslot e ++ pimg ps.
+Proof. reflexivity. Qed.
+Lemma psz_cons f e ps : psz ((f, e) :: ps) = slot (len e) :: psz ps.
+Proof. reflexivity. Qed.
+Lemma sumz_cons x l : sumz (x :: l) = x + sumz l.
+Proof. reflexivity. Qed.
+Lemma len_pimg ps : len (pimg ps) = sumz (psz ps).
+Proof. induction ps as [|[f e] ps IH]; [reflexivity|]. rewrite pimg_cons, psz_cons, sumz_cons, len_app, len_padslot, IH. reflexivity. Qed.
+Lemma sumz_psz_nonneg ps : 0 <= sumz (psz ps).
+Proof. rewrite <- len_pimg. apply len_nonneg. Qed.
+Lemma sumz_psz_mod8 ps : sumz (psz ps) mod 8 = 0.
+Proof.
+  induction ps as [|[f e] ps IH]; [reflexivity|]. rewrite psz_cons, sumz_cons.
+  pose proof (slot_spec (len e)) as [_ M]. rewrite Z.add_mod, M, IH by lia. reflexivity.
+Qed.
+
+Lemma dec_dyn_list_ok m off stat_len : forall fs, Forall RT fs -> forall vs es so k dnext,
+  enc_list fs vs = Some es ->
+  sits (pimg (spairs fs es)) m (off + so) -> sits (pimg (dpairs fs es)) m (off + dnext) ->
+  (forall j, (j < length (psz (dpairs fs es)))%nat -> 1 <= k + Z.of_nat j ->
+     rd64 m (off + 8 + stat_len + 8 * (k + Z.of_nat j - 1)) = dnext + sumz (firstn j (psz (dpairs fs es)))) ->
+  0 <= k -> dnext mod 8 = 0 -> sumz (psz (spairs fs es)) < 2^62 -> sumz (psz (dpairs fs es)) < 2^62 ->
+  dec_dyn_list m off stat_len fs so k dnext = Some (vs, dnext + sumz (psz (dpairs fs es))).
+Proof.
+  induction fs as [|f fs IH]; intros HF vs es so k dnext He Ss Sd Ht Hk Hm Bs Bd.
+  - destruct vs; cbn in He; [|discriminate]. inversion He; subst. cbn. f_equal. f_equal. lia.
+  - destruct vs as [|v vs]; cbn in He; [discriminate|].
+    destruct (enc f v) as [e|] eqn:Ee; [|discriminate]. destruct (enc_list fs vs) as [r|] eqn:Er; [|discriminate].
+    inversion He; subst es. clear He. inversion HF as [|? ? Hf HFt]; subst.
+    pose proof (slot_spec (len e)) as [[SA SB] SM]. pose proof (len_nonneg e) as Le.
+    cbn [dec_dyn_list]. destruct (is_static f) eqn:Es.
+    + rewrite (spairs_cons_static f e fs r Es) in Ss, Bs. rewrite (dpairs_cons_static f e fs r Es) in Sd, Ht, Bd |- *.
+      rewrite pimg_cons in Ss. apply sits_padslot in Ss. destruct Ss as [S1 S2]. rewrite psz_cons, sumz_cons in Bs.
+      pose proof (sumz_psz_nonneg (spairs fs r)).
+      rewrite (Hf v e m (off + so) Ee S1 ltac:(lia)). cbn [fst snd].
+      rewrite (IH HFt vs r (so + slot (len e)) k dnext Er); try assumption; [reflexivity| |lia].
+      replace (off + (so + slot (len e))) with (off + so + slot (len e)) by lia. exact S2.
+    + rewrite (spairs_cons_dyn f e fs r Es) in Ss, Bs. rewrite (dpairs_cons_dyn f e fs r Es) in Sd, Ht, Bd |- *.
+      rewrite pimg_cons in Sd. apply sits_padslot in Sd. destruct Sd as [S1 S2]. rewrite psz_cons, sumz_cons in Bd |- *.
+      pose proof (sumz_psz_nonneg (dpairs fs r)).
+      assert (Ho : (if k =? 0 then dnext else rd64 m (off + 8 + stat_len + 8 * (k - 1))) = dnext).
+      { destruct (k =? 0) eqn:Ek; [reflexivity|]. apply Z.eqb_neq in Ek.
+        pose proof (Ht O ltac:(rewrite psz_cons; cbn; lia) ltac:(lia)) as H0. cbn [firstn sumz fold_right] in H0.
+        replace (k + Z.of_nat 0 - 1) with (k - 1) in H0 by lia. rewrite H0. lia. }
+      rewrite Ho. rewrite guard_true by (rewrite Z.leb_refl, Hm; reflexivity).
+      rewrite (Hf v e m (off + dnext) Ee S1 ltac:(lia)). cbn [fst snd].
+      rewrite (IH HFt vs r so (k + 1) (dnext + slot (len e)) Er); try assumption.
+      * rewrite Z.add_assoc. reflexivity.
+      * replace (off + (dnext + slot (len e))) with (off + dnext + slot (len e)) by lia. exact S2.
+      * intros j Hj H1. pose proof (Ht (S j) ltac:(rewrite psz_cons; cbn [length]; lia) ltac:(lia)) as HS.
+        rewrite psz_cons in HS. cbn [firstn] in HS. rewrite sumz_cons in HS.
+        replace (k + 1 + Z.of_nat j - 1) with (k + Z.of_nat (S j) - 1) by lia. rewrite HS. lia.
+      * lia.
+      * rewrite Z.add_mod, Hm, SM by lia. reflexivity.
+      * lia.
+Qed.
+
+Lemma stat_len_spairs : forall fs vs es, enc_list fs vs = Some es -> stat_len_of fs = sumz (psz (spairs fs es)).
+Proof.
+  induction fs as [|f fs IH]; intros vs es He.
+  - destruct vs; cbn in He; [|discriminate]. inversion He; subst. reflexivity.
+  - destruct vs as [|v vs]; cbn in He; [discriminate|].
+    destruct (enc f v) as [e|] eqn:Ee; [|discriminate]. destruct (enc_list fs vs) as [r|] eqn:Er; [|discriminate].
+    inversion He; subst es. clear He. unfold stat_len_of in *. cbn [filter]. destruct (is_static f) eqn:Es.
+    + rewrite (spairs_cons_static f e fs r Es), psz_cons, sumz_cons. cbn [map]. rewrite sumz_cons, (IH vs r Er).
+      unfold is_static in Es. destruct (csize f) as [s|] eqn:Cs; [|discriminate]. rewrite (SZ_all f v e s Ee Cs). reflexivity.
+    + rewrite (spairs_cons_dyn f e fs r Es). apply (IH vs r Er).
+Qed.
+Lemma len_dpairs : forall fs es, length es = length fs -> len (dpairs fs es) = len fs - len (filter is_static fs).
+Proof.
+  induction fs as [|f fs IH]; intros [|e es] L; cbn in L; try discriminate; [reflexivity|].
+  cbn [filter]. destruct (is_static f) eqn:Es.
+  - rewrite (dpairs_cons_static f e fs es Es), !len_cons, IH by lia. lia.
+  - rewrite (dpairs_cons_dyn f e fs es Es), !len_cons, IH by lia. lia.
+Qed.
+Lemma offsets_from_length : forall l s, length (offsets_from s l) = length l.
+Proof. induction l as [|x l IH]; intros s; cbn; [reflexivity|]. rewrite IH. reflexivity. Qed.
+Lemma offsets_from_nth : forall l s j, (j < length l)%nat -> nth j (offsets_from s l) 0 = s + sumz (firstn j l).
+Proof.
+  induction l as [|x l IH]; intros s j H; cbn in H; [lia|]. destruct j as [|j]; cbn [offsets_from nth firstn]; [cbn; lia|].
+  rewrite IH by lia. rewrite sumz_cons. lia.
+Qed.
+Lemma offsets_from_fits : forall l s, 0 <= s -> Forall (fun x => 0 <= x) l -> s + sumz l < 2^62 -> Forall (fun w => - 2^63 <= w < 2^63) (offsets_from s l).
+Proof.
+  induction l as [|x l IH]; intros s Hs Hl Hb; cbn [offsets_from]; [constructor|]. inversion Hl as [|? ? Hx Hl']; subst. rewrite sumz_cons in Hb.
+  assert (Hsum : 0 <= sumz l) by (clear - Hl'; induction Hl' as [|y l' Hy Hl' IH']; [cbn; lia|rewrite sumz_cons; lia]).
+  assert (P : 2^62 < 2^63) by reflexivity.
+  constructor; [lia|]. apply IH; [lia|assumption|lia].
+Qed.
+Lemma psz_nonneg ps : Forall (fun x => 0 <= x) (psz ps).
+Proof. induction ps as [|[f e] ps IH]; [constructor|]. rewrite psz_cons. constructor; [|exact IH]. pose proof (slot_spec (len e)) as [[A _] _]. pose proof (len_nonneg e). lia. Qed.
+
+Lemma filter_length_le {A} (f : A -> bool) l : (length (filter f l) <= length l)%nat.
+Proof. induction l as [|a l IH]; cbn; [lia|]. destruct (f a); cbn; lia. Qed.
+
+Lemma RT_struct_dyn fs : Forall RT fs -> forallb is_static fs = false -> RT (TStruct fs).
+Proof.
+  intros HF Hst v img m off H Hs Hl. destruct v as [| |vs| | | |]; try discriminate.
+  rewrite enc_struct_eq in H. destruct (enc_list fs vs) as [es|] eqn:Ee; [|discriminate]. inversion H; subst img. clear H.
+  destruct (enc_list_length _ _ _ Ee) as [L1 L2].
+  pose proof (len_dpairs fs es L1) as Ld.
+  destruct (dpairs fs es) as [|p ps] eqn:Ed.
+  { exfalso. change (len (@nil (ty * list cell))) with 0 in Ld.
+    assert (filter is_static fs = fs -> forallb is_static fs = true).
+    { clear. induction fs as [|f fs IH]; [reflexivity|]. cbn. destruct (is_static f) eqn:E.
+      - intros H. inversion H. rewrite H1. cbn. apply IH. exact H1.
+      - intros H. pose proof (filter_length_le is_static fs) as Hle. rewrite H in Hle. cbn in Hle. lia. }
+    assert (Hlen : length (filter is_static fs) = length fs) by (unfold len in Ld; lia).
+    assert (filter is_static fs = fs).
+    { clear - Hlen. induction fs as [|f fs IH]; [reflexivity|]. cbn in *. destruct (is_static f).
+      - cbn in Hlen. f_equal. apply IH. lia.
+      - pose proof (filter_length_le is_static fs). lia. }
+    rewrite (H H0) in Hst. discriminate. }
+  rewrite (enc_struct_dyn_eq fs es p ps Ed) in Hs, Hl |- *. rewrite <- Ed in *. cbv zeta in *.
+  rewrite len_pimg in *. rewrite <- (stat_len_spairs fs vs es Ee) in *.
+  assert (Ldp : 1 <= len (dpairs fs es)) by (rewrite Ed, len_cons; pose proof (len_nonneg ps); lia).
+  set (hdr := 8 + stat_len_of fs + 8 * (len (dpairs fs es) - 1)) in *.
+  set (total := hdr + sumz (psz (dpairs fs es))) in *.
+  pose proof (sumz_psz_nonneg (spairs fs es)) as Ns. rewrite <- (stat_len_spairs fs vs es Ee) in Ns.
+  pose proof (sumz_psz_nonneg (dpairs fs es)) as Nd.
+  assert (L8 : len (bytes (enc64 total)) = 8) by (rewrite len_bytes; unfold len; rewrite enc64_length; reflexivity).
+  assert (Lo : len (tl (offsets_from hdr (psz (dpairs fs es)))) = len (dpairs fs es) - 1).
+  { assert (E : length (offsets_from hdr (psz (dpairs fs es))) = length (dpairs fs es)) by (rewrite offsets_from_length; unfold psz; apply map_length).
+    pose proof Ldp as Ldp'. unfold len in Ldp' |- *. revert E. generalize (offsets_from hdr (psz (dpairs fs es))).
+    intros [|o os] E; cbn [tl length] in E |- *; lia. }
+  assert (Limg : len (bytes (enc64 total) ++ pimg (spairs fs es) ++ words (tl (offsets_from hdr (psz (dpairs fs es)))) ++ pimg (dpairs fs es)) = total).
+  { rewrite !len_app, L8, !len_pimg, len_words, Lo, <- (stat_len_spairs fs vs es Ee). unfold total, hdr. lia. }
+  rewrite Limg in *.
+  pose proof Hs as Hs0. apply sits_app in Hs. destruct Hs as [S0 Hs]. rewrite L8 in Hs.
+  apply sits_app in Hs. destruct Hs as [S1 Hs]. rewrite len_pimg, <- (stat_len_spairs fs vs es Ee) in Hs.
+  apply sits_app in Hs. destruct Hs as [S2 S3]. rewrite len_words, Lo in S3.
+  rewrite dec_struct_dyn_eq by (rewrite <- Ld; apply Z.eqb_neq; lia).
+  apply sits_in_range in Hs0. rewrite Limg in Hs0.
+  rewrite guard_true by (unfold in_rangeb in *; lia).
+  cbv zeta. rewrite (sits_rd64 total m off ltac:(lia) S0).
+  rewrite guard_true by (rewrite Hs0; unfold total, hdr; lia).
+  rewrite <- Ld. fold hdr.
+  assert (Hm8 : hdr mod 8 = 0).
+  { unfold hdr. rewrite (stat_len_spairs fs vs es Ee). replace (8 + sumz (psz (spairs fs es)) + 8 * (len (dpairs fs es) - 1)) with (sumz (psz (spairs fs es)) + len (dpairs fs es) * 8) by lia.
+    rewrite Z_mod_plus_full. apply sumz_psz_mod8. }
+  rewrite (dec_dyn_list_ok m off (stat_len_of fs) fs HF vs es 8 0 hdr Ee); try assumption; try lia.
+  - cbn [fst snd]. fold total. rewrite guard_true; [reflexivity|]. rewrite Z.leb_refl. cbn [andb]. apply Z.eqb_eq.
+    unfold total. rewrite Z.add_mod, Hm8, sumz_psz_mod8 by lia. reflexivity.
+  - replace (off + hdr) with (off + 8 + stat_len_of fs + 8 * (len (dpairs fs es) - 1)) by (unfold hdr; lia). exact S3.
+  - intros j Hj H1. destruct j as [|j]; [lia|].
+    pose proof (offsets_from_fits (psz (dpairs fs es)) hdr ltac:(unfold hdr; lia) (psz_nonneg _) ltac:(fold total; lia)) as Ff.
+    assert (Ftl : Forall (fun w => - 2^63 <= w < 2^63) (tl (offsets_from hdr (psz (dpairs fs es))))).
+    { destruct (offsets_from hdr (psz (dpairs fs es))); [constructor|]. inversion Ff; assumption. }
+    assert (Hjl : (j < length (tl (offsets_from hdr (psz (dpairs fs es)))))%nat).
+    { pose proof (offsets_from_length (psz (dpairs fs es)) hdr) as E. destruct (offsets_from hdr (psz (dpairs fs es))); cbn in *; lia. }
+    pose proof (sits_words_nth _ m _ S2 Ftl j Hjl) as Hw.
+    replace (off + 8 + stat_len_of fs + 8 * (0 + Z.of_nat (S j) - 1)) with (off + 8 + stat_len_of fs + 8 * Z.of_nat j) by lia.
+    rewrite Hw. rewrite <- (offsets_from_nth (psz (dpairs fs es)) hdr (S j) Hj).
+    destruct (offsets_from hdr (psz (dpairs fs es))); [destruct j; reflexivity|reflexivity].
+  - rewrite <- (stat_len_spairs fs vs es Ee). unfold total, hdr in Hl. lia.
+Qed.
+
+
+
+(* ================= arrays of dynamically sized items ================= *)
+Definition szs (l : list (list cell)) : list Z := map (fun e => slot (len e)) l.
+Lemma szs_cons e l : szs (e :: l) = slot (len e) :: szs l.
+Proof. reflexivity. Qed.
+Lemma szs_nonneg l : Forall (fun x => 0 <= x) (szs l).
+Proof. induction l as [|e l IH]; [constructor|]. rewrite szs_cons. constructor; [|exact IH]. pose proof (slot_spec (len e)) as [[A _] _]. pose proof (len_nonneg e). lia. Qed.
+Lemma szs_mod8 l : Forall (fun x => x mod 8 = 0) (szs l).
+Proof. induction l as [|e l IH]; [constructor|]. rewrite szs_cons. constructor; [|exact IH]. apply (slot_spec (len e)). Qed.
+Lemma sumz_nonneg l : Forall (fun x => 0 <= x) l -> 0 <= sumz l.
+Proof. induction 1 as [|x l Hx Hl IH]; [cbn; lia|rewrite sumz_cons; lia]. Qed.
+Lemma sumz_mod8 l : Forall (fun x => x mod 8 = 0) l -> sumz l mod 8 = 0.
+Proof. induction 1 as [|x l Hx Hl IH]; [reflexivity|]. rewrite sumz_cons, Z.add_mod, Hx, IH by lia. reflexivity. Qed.
+Lemma len_concat_padslot l : len (concat (map padslot l)) = sumz (szs l).
+Proof. induction l as [|e l IH]; [reflexivity|]. rewrite len_concat_padslot_cons, szs_cons, sumz_cons, IH. reflexivity. Qed.
+
+Lemma sits_concat_padslot_nth : forall (l : list (list cell)) m o p, sits (concat (map padslot l)) m o -> (p < length l)%nat ->
+  sits (nth p l []) m (o + sumz (firstn p (szs l))).
+Proof.
+  induction l as [|e l IH]; intros m o p Hs Hp; [cbn in Hp; lia|].
+  cbn [map concat] in Hs. apply sits_padslot in Hs. destruct Hs as [S1 S2]. destruct p as [|p].
+  - cbn [nth firstn sumz fold_right]. replace (o + 0) with o by lia. exact S1.
+  - cbn [nth]. rewrite szs_cons. cbn [firstn]. rewrite sumz_cons. replace (o + (slot (len e) + sumz (firstn p (szs l)))) with (o + slot (len e) + sumz (firstn p (szs l))) by lia.
+    apply IH; [exact S2|cbn in Hp; lia].
+Qed.
+
+Lemma chain_ok_offsets : forall sizes s, s mod 8 = 0 -> Forall (fun x => x mod 8 = 0) sizes ->
+  chain_ok s (combine (offsets_from s sizes) sizes) = Some (s + sumz sizes).
+Proof.
+  induction sizes as [|x l IH]; intros s Hs Hf; [cbn; f_equal; lia|]. inversion Hf as [|? ? Hx Hl]; subst.
+  cbn [offsets_from combine chain_ok]. rewrite Z.leb_refl, Hs. cbn [Z.eqb andb]. rewrite IH; [|rewrite Z.add_mod, Hs, Hx by lia; reflexivity|exact Hl].
+  rewrite sumz_cons. f_equal. lia.
+Qed.
+
+Lemma map_nth_seq_gen {A} (d : A) (l : list A) : map (fun i => nth i l d) (seq 0 (length l)) = l.
+Proof.
+  induction l as [|x l IH]; [reflexivity|]. cbn [length seq map nth]. f_equal. rewrite <- seq_shift, map_map. exact IH.
+Qed.
+
+Lemma RT_array_dyn item shape order : RT item -> csize item = None ->
+  forall sh items img m off,
+  enc (TArray item shape order) (VArr sh items) = Some img -> sits img m off -> len img < 2^62 ->
+  dec (TArray item shape order) m off = Some (VArr sh items, len img).
+Proof.
+  intros HR Ci sh items img m off H Hs Hl.
+  cbn [enc] in H. destruct (shape_ok shape sh && perm_ok order (length shape) && (len items =? prod sh) && words_fit item shape order sh) eqn:G; [|discriminate].
+  apply andb_prop in G. destruct G as [G Gw].
+  apply andb_prop in G. destruct G as [G Gn]. apply andb_prop in G. destruct G as [Gs Gp]. apply Z.eqb_eq in Gn.
+  destruct (seqopt (map (enc item) items)) as [es|] eqn:Ee; [|discriminate]. inversion H; subst img. clear H.
+  unfold words_fit in Gw. rewrite Ci in Gw. apply andb_prop in Gw. destruct Gw as [Fd Fs]. apply forallb_fits in Fd. apply forallb_fits in Fs.
+  assert (Hst : is_static item = false) by (unfold is_static; rewrite Ci; reflexivity).
+  unfold enc_array in *. rewrite Hst, Ci in *.
+  set (es_mem := map (fun p => nth (Z.to_nat (logical_of_mem sh order p)) es []) (mem_positions sh)) in *.
+  fold (szs es_mem) in *.
+  pose proof (prod_nonneg sh (shape_ok_nonneg _ _ Gs)) as Hpn.
+  set (n := prod sh) in *.
+  set (hdr := arr_header false shape) in *.
+  set (total := slot (hdr + 8 * n + sumz (szs es_mem))) in *.
+  set (offs := offsets_from (hdr + 8 * n) (szs es_mem)) in *.
+  set (strs := if (0 <? ndyn shape) && (1 <? len shape) then get_strides sh order 8 else []) in *.
+  change (concat (map (fun d : Z => bytes (enc64 d)) (dyn_dims shape sh))) with (words (dyn_dims shape sh)) in *.
+  change (concat (map (fun s : Z => bytes (enc64 s)) strs)) with (words strs) in *.
+  change (concat (map (fun o : Z => bytes (enc64 o)) offs)) with (words offs) in *.
+  pose proof (ndyn_nonneg shape) as Hnd0. pose proof (len_nonneg shape) as Hls0.
+  pose proof (sumz_nonneg _ (szs_nonneg es_mem)) as Hsz0.
+  pose proof (slot_spec (hdr + 8 * n + sumz (szs es_mem))) as [[TA TB] TM]. fold total in TA, TB, TM.
+  pose proof (dyn_dims_length _ _ Gs) as Ldd.
+  assert (Lst : len (get_strides sh order 8) = len shape).
+  { unfold len. rewrite get_strides_length. apply andb_prop in Gp. destruct Gp as [Gp' _]. apply Nat.eqb_eq in Gp'. lia. }
+  assert (Lem : length es_mem = Z.to_nat n) by (unfold es_mem, mem_positions; rewrite !map_length, seq_length; reflexivity).
+  assert (Loffs : len offs = n) by (unfold offs, len; rewrite offsets_from_length; unfold szs; rewrite map_length, Lem; lia).
+  assert (L8 : len (bytes (enc64 total)) = 8) by (rewrite len_bytes; unfold len; rewrite enc64_length; reflexivity).
+  assert (Hhdr : hdr = 8 + 8 * ndyn shape + len (words strs)).
+  { unfold hdr, arr_header, strs. cbn [andb]. rewrite len_words. destruct ((0 <? ndyn shape) && (1 <? len shape)); [rewrite Lst|change (len (@nil Z)) with 0]; lia. }
+  assert (Hls : 0 <= len (words strs)) by apply len_nonneg.
+  assert (Lbody : len (padto (concat (map padslot es_mem)) (total - hdr - 8 * n)) = total - hdr - 8 * n).
+  { unfold padto, pad. rewrite len_app, len_concat_padslot, len_repeat by lia. lia. }
+  assert (Limg : len (bytes (enc64 total) ++ words (dyn_dims shape sh) ++ words strs ++ words offs ++ padto (concat (map padslot es_mem)) (total - hdr - 8 * n)) = total).
+  { rewrite !len_app, L8, Lbody, (len_words (dyn_dims shape sh)), (len_words offs), Ldd, Loffs. lia. }
+  rewrite Limg in *.
+  pose proof Hs as Hs0. apply sits_in_range in Hs0. rewrite Limg in Hs0.
+  apply sits_app in Hs. destruct Hs as [S0 Hs]. rewrite L8 in Hs.
+  apply sits_app in Hs. destruct Hs as [S1 Hs]. rewrite len_words, Ldd in Hs.
+  apply sits_app in Hs. destruct Hs as [S2 Hs].
+  replace (off + 8 + 8 * ndyn shape + len (words strs)) with (off + hdr) in Hs by lia.
+  apply sits_app in Hs. destruct Hs as [S3 S4]. rewrite len_words, Loffs in S4.
+  unfold padto in S4. apply sits_app in S4. destruct S4 as [S4 _].
+  destruct (seqopt_map_spec (enc item) VNull [] items es Ee) as [Les Nes].
+  assert (Foffs : Forall (fun w => - 2^63 <= w < 2^63) offs).
+  { apply offsets_from_fits; [lia|apply szs_nonneg|lia]. }
+  assert (Hitem : forall c, (c < Z.to_nat n)%nat ->
+     dec item m (off + rd64 m (off + hdr + dot (unpos sh (Z.of_nat c)) (get_strides sh order 8))) = Some (nth c items VNull, len (nth c es []))).
+  { intros c Hc. destruct (lom_of_idx shape sh order (Z.of_nat c) Gs Gp ltac:(lia)) as [Hmp [Hlom Hdot]]. cbv zeta in Hmp, Hlom, Hdot.
+    set (mp := Perm.mem_pos sh order (unpos sh (Z.of_nat c))) in *. fold n in Hmp. rewrite Hdot.
+    assert (Hmpl : (Z.to_nat mp < length offs)%nat) by (unfold len in Loffs; lia).
+    pose proof (sits_words_nth offs m (off + hdr) S3 Foffs (Z.to_nat mp) Hmpl) as Hw. rewrite Z2Nat.id in Hw by lia.
+    replace (off + hdr + 8 * mp) with (off + hdr + 8 * mp) by lia. rewrite Hw.
+    unfold offs. rewrite offsets_from_nth by (unfold szs; rewrite map_length; lia).
+    pose proof (sits_concat_padslot_nth es_mem m (off + hdr + 8 * n) (Z.to_nat mp) S4 ltac:(lia)) as Sx.
+    assert (Ex : nth (Z.to_nat mp) es_mem [] = nth c es []).
+    { unfold es_mem. rewrite (map_nth_in _ _ _ [] 0) by (unfold mem_positions; rewrite map_length, seq_length; fold n; lia).
+      rewrite nth_mem_positions by (fold n; lia). rewrite Z2Nat.id by lia. rewrite Hlom. rewrite Nat2Z.id. reflexivity. }
+    rewrite Ex in Sx.
+    assert (Hci : (c < length items)%nat) by (unfold len in Gn; lia).
+    replace (off + (hdr + 8 * n + sumz (firstn (Z.to_nat mp) (szs es_mem)))) with (off + hdr + 8 * n + sumz (firstn (Z.to_nat mp) (szs es_mem))) by lia.
+    apply (HR _ _ m _ (Nes c Hci) Sx).
+    (* the item lies inside the data area *)
+    assert (Hin : In (nth (Z.to_nat mp) es_mem []) es_mem) by (apply nth_In; lia).
+    rewrite Ex in Hin.
+    assert (Hle : forall l x, In x l -> slot (len x) <= sumz (szs l)).
+    { clear. induction l as [|e l IH]; intros x Hin; [destruct Hin|]. destruct Hin as [E|Hx]; rewrite szs_cons, sumz_cons.
+      - subst. pose proof (sumz_nonneg _ (szs_nonneg l)). lia.
+      - pose proof (IH x Hx). pose proof (slot_spec (len e)) as [[A _] _]. pose proof (len_nonneg e). lia. }
+    pose proof (Hle _ _ Hin). pose proof (slot_spec (len (nth c es []))) as [[A _] _]. lia. }
+  cbn [dec]. rewrite Hst, Ci. fold hdr. cbn [andb].
+  rewrite guard_true by (rewrite Gp; cbn [andb]; unfold in_rangeb in *; lia).
+  assert (Hrw : rd_words m (off + 8) (ndyn shape) = dyn_dims shape sh) by (rewrite <- Ldd; apply rd_words_spec; assumption).
+  rewrite Hrw, (fill_dyn_dims _ _ Gs), Gs. cbn [guard]. fold n.
+  assert (Hg2 : negb ((0 <? ndyn shape) && (1 <? len shape)) || list_eqbZ (rd_words m (off + 8 + 8 * ndyn shape) (len shape)) (get_strides sh order 8) = true).
+  { unfold strs in S2. destruct ((0 <? ndyn shape) && (1 <? len shape)); [|reflexivity]. cbn [negb orb].
+    rewrite <- Lst. rewrite (rd_words_spec m _ _ S2 Fs). apply list_eqbZ_refl. }
+  rewrite Hg2. cbn [guard].
+  rewrite (sits_rd64 total m off ltac:(lia) S0).
+  rewrite guard_true by (rewrite Hs0; lia).
+  set (ivs := map (fun c => (nth c items VNull, len (nth c es []))) (seq 0 (Z.to_nat n))).
+  assert (Hivs : seqopt (map (fun idx : list Z => dec item m (off + rd64 m (off + hdr + dot idx (get_strides sh order 8))))
+                   (map (fun c : nat => unpos sh (Z.of_nat c)) (seq 0 (Z.to_nat n)))) = Some ivs).
+  { rewrite map_map. apply (seqopt_map_intro _ O (VNull, 0)); [unfold ivs; rewrite map_length; reflexivity|].
+    intros i Hi. rewrite seq_length in Hi. rewrite seq_nth by exact Hi. cbn [Nat.add]. rewrite (Hitem i Hi).
+    unfold ivs. rewrite (map_nth_in _ _ _ (VNull, 0) O) by (rewrite seq_length; exact Hi). rewrite seq_nth by exact Hi. reflexivity. }
+  rewrite Hivs.
+  assert (Hsm : map (fun p : Z => slot (snd (nth (Z.to_nat (logical_of_mem sh order p)) ivs (VNull, 0)))) (mem_positions sh) = szs es_mem).
+  { unfold szs, es_mem. rewrite map_map. apply map_ext_in. intros p Hp. apply In_mem_positions in Hp.
+    pose proof (lom_range shape sh order p Gs Gp Hp) as Hr. fold n in Hr.
+    unfold ivs. rewrite (map_nth_in _ _ _ (VNull, 0) O) by (rewrite seq_length; lia). rewrite seq_nth by lia. reflexivity. }
+  rewrite Hsm.
+  assert (Hrw2 : rd_words m (off + hdr) n = offs) by (rewrite <- Loffs; apply rd_words_spec; assumption).
+  rewrite Hrw2. unfold offs.
+  assert (Hm8 : (hdr + 8 * n) mod 8 = 0).
+  { rewrite Hhdr, len_words. replace (8 + 8 * ndyn shape + 8 * len strs + 8 * n) with (0 + (1 + ndyn shape + len strs + n) * 8) by lia. apply Z_mod_plus_full. }
+  rewrite (chain_ok_offsets (szs es_mem) (hdr + 8 * n) Hm8 (szs_mod8 es_mem)).
+  rewrite guard_true by (rewrite TM; lia).
+  f_equal. f_equal. f_equal. unfold ivs. rewrite map_map. cbn [fst].
+  replace (Z.to_nat n) with (length items) by (unfold len in Gn; lia). apply map_nth_seq_gen.
+Qed.
+
+(* ================= the round trip, for every type of the grammar ================= *)
+(* Types containing Ref / UnionRef have no image under [enc] (their values live in a heap, see Heap/RefOps),
+   so the statement is vacuous for them and substantive for every reference-free type. *)
+Theorem RT_all : forall t, RT t.
+Proof.
+  apply ty_ind'.
+  - exact RT_scalar.
+  - exact RT_string.
+  - intros fs HF. destruct (forallb is_static fs) eqn:E; [apply RT_struct_static|apply RT_struct_dyn]; assumption.
+  - intros item shape order HR v img m off H Hs Hl. destruct v as [| | |sh items| | |]; try discriminate.
+    destruct (csize item) as [isz|] eqn:Ci.
+    + eapply RT_array_static; eassumption.
+    + eapply RT_array_dyn; eassumption.
+  - intros t _ v img m off H. destruct v; discriminate.
+  - intros ms _ v img m off H. destruct v; discriminate.
+Qed.
+
+(* the same statement about raw buffers: wherever the bytes of a buffer carry the image (padding cells
+   free), decoding at that offset returns the value and the image length as the object's size *)
+Theorem dec_enc_buffer t v img pre bs post :
+  enc t v = Some img -> cells_match img bs = true -> len img < 2^62 ->
+  dec t (pre ++ bs ++ post) (len pre) = Some (v, len img).
+Proof.
+  intros He Hc Hl. apply (RT_all t v img (pre ++ bs ++ post) (len pre) He); [|exact Hl].
+  apply cells_match_sits. exact Hc.
+Qed.
+
+(* the reported size of a static type is its class size *)
+Theorem enc_static_size t v img s : enc t v = Some img -> csize t = Some s -> len img = s.
+Proof. apply SZ_all. Qed.
+
+(* non-vacuity: a nested dynamic value (struct with a string and a 2-D Fortran-order array of strings) has an image *)
+Example RT_nonvacuous :
+  let t := TStruct [TScalar I32; TString; TArray TString [None; Some 2] [1%nat; 0%nat]] in
+  let s x := VStr [x] 16 in
+  let v := VStruct [VNum [1;0;0;0]; VStr [104;105] 16; VArr [2;2] [s 97; s 98; s 99; s 100]] in
+  exists img, enc t v = Some img /\ 100 < len img.
+Proof. cbv zeta. eexists. split; [vm_compute; reflexivity|reflexivity]. Qed.
+
+(* decoding does not depend on the buffer or the offset at which the image lies *)
+Theorem placement_independent t v img m off m' off' :
+  enc t v = Some img -> len img < 2^62 -> sits img m off -> sits img m' off' -> dec t m off = dec t m' off'.
+Proof. intros He Hl S1 S2. rewrite (RT_all t v img m off He S1 Hl), (RT_all t v img m' off' He S2 Hl). reflexivity. Qed.
+Theorem dec_enc_size t v img m off :
+  enc t v = Some img -> sits img m off -> len img < 2^62 -> exists v', dec t m off = Some (v', len img).
+Proof. intros H1 H2 H3. exists v. exact (RT_all t v img m off H1 H2 H3). Qed.
